@@ -31,6 +31,7 @@ const (
 	errClosed      = 11003
 	errOpen        = 11004
 	errFetchLength = 11007
+	errFetchPos    = 11008
 )
 
 // Cursor queries; all have two result columns.
@@ -43,7 +44,23 @@ var queries = []string{
 	"SELECT a.id, b.v FROM t a JOIN t b ON a.id = b.id ORDER BY a.id",
 	fromSubquery,
 	"SELECT id, v FROM t WHERE id % 2 = 0",
+	// 8-11: queries whose evaluation fails for some table states (the OPEN must then fail and leave the cursor closed)
+	"SELECT id, 100 / (id - @lim) FROM t ORDER BY id",                       // division by zero in the select list when some id = @lim
+	"SELECT id, v FROM t WHERE 100 / (id - @lim) > 0 ORDER BY id",           // ... in WHERE
+	"SELECT id, (SELECT s.v FROM t s WHERE s.id > @lim) FROM t ORDER BY id", // scalar subquery with too many records
+	"SELECT id, v FROM u ORDER BY id",                                       // table u exists only after "mku" (and not after its rollback / disposal)
+	// 12-13: integer- and float-typed result columns also over the CSV file
+	"SELECT id, id * 10 FROM t ORDER BY id",
+	"SELECT INTEGER(id), FLOAT(id) / 4 FROM t ORDER BY id",
 }
+
+const (
+	qDivSelect = 8
+	qDivWhere  = 9
+	qSubquery  = 10
+	qTableU    = 11
+	pInto      = 2
+)
 
 // A FROM-subquery over a file marks the CACHED FileInfo of t as an inline table
 // with an empty path (load_view.go:405-412 works on the shared *FileInfo), after
@@ -63,7 +80,12 @@ var fromSubquery = func() string {
 var prepared = []string{
 	"SELECT id, v FROM t WHERE id >= ? ORDER BY id",
 	"SELECT v, id FROM t WHERE id <> ?",
+	// SELECT ... INTO is accepted in a prepared statement: at most one record may match
+	"SELECT id, v INTO @p, @q FROM t WHERE id <= ? ORDER BY id",
 }
+
+// the same without the INTO clause: the rows the cursor holds when the OPEN succeeds
+const intoRows = "SELECT id, v FROM t WHERE id <= ? ORDER BY id"
 
 const sentinel = "#s"
 
@@ -73,22 +95,25 @@ type row struct {
 }
 
 type opT struct {
-	K        string `json:"k"`                   // declare open fetch close dispose while status dml commit rollback setvar
-	Cur      string `json:"cur,omitempty"`       // c1 | c2
-	Q        int    `json:"q,omitempty"`         // declare: index into queries / prepared
-	Prep     bool   `json:"prep,omitempty"`      // declare: cursor for prepared statement s<Q>
-	Using    int    `json:"using,omitempty"`     // open: replace value
-	RefAfter bool   `json:"ref_after,omitempty"` // open: the reference SELECT runs right after OPEN instead of right before
-	Pos      string `json:"pos,omitempty"`       // fetch: "" NEXT PRIOR FIRST LAST ABSOLUTE RELATIVE
-	N        int    `json:"n,omitempty"`         // fetch: number; setvar: value
-	NVars    int    `json:"nvars,omitempty"`     // fetch: number of INTO variables (2 = matching)
-	DeclVar  bool   `json:"decl_var,omitempty"`  // while: WHILE VAR ...
-	Break    int    `json:"break,omitempty"`     // while: BREAK after this many iterations (0: never)
-	Body     string `json:"body,omitempty"`      // while: DML in the loop body: "" updall delall ins
-	What     string `json:"what,omitempty"`      // status: open range count; dml: insert update updall updid delete delall
-	Print    bool   `json:"print,omitempty"`     // status: PRINT instead of SELECT
-	ID       int    `json:"id,omitempty"`        // dml
-	Tag      int    `json:"tag,omitempty"`       // dml
+	K         string `json:"k"`                    // declare open fetch loopfetch close dispose while status dml alter mku rmu alloc commit rollback setvar
+	Cur       string `json:"cur,omitempty"`        // c1 | c2
+	Q         int    `json:"q,omitempty"`          // declare: index into queries / prepared
+	Prep      bool   `json:"prep,omitempty"`       // declare: cursor for prepared statement s<Q>
+	Using     int    `json:"using,omitempty"`      // open: replace value
+	UsingMode string `json:"using_mode,omitempty"` // open of a prepared-statement cursor: "" one value, "none" no USING, "two" two values
+	Off       string `json:"off,omitempty"`        // fetch ABSOLUTE/RELATIVE: offset given as "" literal N, a/b (variable filled by an earlier fetch), k (@k), kexpr (@k - 1), litexpr (N + 0)
+	Reps      int    `json:"reps,omitempty"`       // loopfetch: iterations of the same FETCH statement
+	RefAfter  bool   `json:"ref_after,omitempty"`  // open: the reference SELECT runs right after OPEN instead of right before
+	Pos       string `json:"pos,omitempty"`        // fetch: "" NEXT PRIOR FIRST LAST ABSOLUTE RELATIVE
+	N         int    `json:"n,omitempty"`          // fetch: number; setvar: value
+	NVars     int    `json:"nvars,omitempty"`      // fetch: number of INTO variables (2 = matching)
+	DeclVar   bool   `json:"decl_var,omitempty"`   // while: WHILE VAR ...
+	Break     int    `json:"break,omitempty"`      // while: BREAK after this many iterations (0: never)
+	Body      string `json:"body,omitempty"`       // while: DML in the loop body: "" updall delall ins
+	What      string `json:"what,omitempty"`       // status: open range count; dml: insert update updall updid delete delall; alter: drop add ren renback; mku: file temp; alloc: inc mix sel
+	Print     bool   `json:"print,omitempty"`      // status: PRINT instead of SELECT
+	ID        int    `json:"id,omitempty"`         // dml
+	Tag       int    `json:"tag,omitempty"`        // dml
 }
 
 type histCase struct {
@@ -143,6 +168,14 @@ type gcur struct {
 	ln, ptr              int // rough idea of the snapshot length and the pointer, only to aim fetches
 }
 
+// risky: the OPEN of this cursor can fail depending on the table state.
+func (g *gcur) risky() bool {
+	if g.prep {
+		return g.q == pInto
+	}
+	return g.q >= qDivSelect && g.q <= qTableU
+}
+
 func genFetch(t *rapid.T, cur string, g *gcur) opT {
 	o := opT{K: "fetch", Cur: cur, NVars: 2}
 	if g.open && g.ln > 0 && chance(t, "aimed", 45) {
@@ -176,14 +209,31 @@ func genFetch(t *rapid.T, cur string, g *gcur) opT {
 			}
 		}
 	}
+	if o.Pos == "ABSOLUTE" || o.Pos == "RELATIVE" {
+		// the offset as a literal, a variable (also one filled by an earlier FETCH) or a small expression
+		o.Off = weighted(t, "off", []wt{{"", 60}, {"a", 15}, {"b", 5}, {"k", 9}, {"kexpr", 5}, {"litexpr", 6}})
+	}
 	switch x := uni(t, "nvars", 0, 99); {
 	case x < 3:
 		o.NVars = 1
 	case x < 5:
 		o.NVars = 3
 	}
-	if g.open && o.NVars == 2 {
-		g.ptr = move(g.ptr, o.Pos, o.N, g.ln)
+	return o
+}
+
+func genLoopFetch(t *rapid.T, cur string, g *gcur) opT {
+	o := opT{K: "loopfetch", Cur: cur, Reps: uni(t, "reps", 2, 4)}
+	if chance(t, "loopabs", 60) {
+		o.Pos = "ABSOLUTE"
+		if g.ln > 0 && chance(t, "loopaimed", 85) {
+			o.N = uni(t, "looptarget", 0, g.ln-1)
+		} else {
+			o.N = uni(t, "loopabsn", -2, 8)
+		}
+	} else {
+		o.Pos = "RELATIVE"
+		o.N = []int{1, 1, -1, 2, 0, -2}[uni(t, "looprel", 0, 5)]
 	}
 	return o
 }
@@ -214,7 +264,98 @@ func genCase(t *rapid.T) histCase {
 	curs := map[string]*gcur{"c1": {}, "c2": {}}
 	live := append([]int(nil), ids...)
 	nextID := n + 1
-	for step := 0; step < nops; step++ {
+	altered := false
+
+	// apply keeps the generator's rough idea of the state in step with an operation
+	apply := func(o opT) {
+		g := curs[o.Cur]
+		switch o.K {
+		case "declare":
+			if !g.declared {
+				*g = gcur{declared: true, prep: o.Prep, q: o.Q}
+			}
+		case "open":
+			if g.declared && !g.open {
+				g.open, g.ln, g.ptr = true, len(live), -1
+			}
+		case "fetch":
+			if g.open && o.NVars == 2 && (o.Off == "" || o.Off == "litexpr") {
+				g.ptr = move(g.ptr, o.Pos, o.N, g.ln)
+			}
+		case "loopfetch":
+			if g.open {
+				for i := 0; i < o.Reps; i++ {
+					g.ptr = move(g.ptr, o.Pos, o.N, g.ln)
+				}
+			}
+		case "close":
+			g.open = false
+		case "dispose":
+			*g = gcur{}
+		case "while":
+			if g.open {
+				if o.Break > 0 {
+					g.ptr = min(g.ptr+o.Break, g.ln)
+				} else {
+					g.ptr = g.ln
+				}
+			}
+		case "dml":
+			if o.What == "delall" {
+				live = nil
+			}
+		case "alter":
+			altered = o.What == "drop" || o.What == "ren"
+		}
+	}
+	genDML := func(step int) opT {
+		o := opT{K: "dml", Tag: step}
+		o.What = weighted(t, "dml", []wt{{"insert", 25}, {"update", 25}, {"updall", 12}, {"updid", 10}, {"delete", 22}, {"delall", 6}})
+		switch o.What {
+		case "insert":
+			o.ID = nextID
+			live = append(live, nextID)
+			nextID++
+		case "update", "updid", "delete":
+			if len(live) > 0 && chance(t, "hit", 90) {
+				i := uni(t, "which", 0, len(live)-1)
+				o.ID = live[i]
+				if o.What == "delete" {
+					live = append(live[:i:i], live[i+1:]...)
+				} else if o.What == "updid" {
+					live[i] += 100
+				}
+			} else {
+				o.ID = uni(t, "anyid", 1, 9)
+			}
+		}
+		return o
+	}
+	genOpen := func(name string, g *gcur) opT {
+		o := opT{K: "open", Cur: name, RefAfter: chance(t, "refafter", 50)}
+		if g.prep {
+			if g.q == pInto {
+				o.Using = []int{0, 1, 1, 2, 3, 6}[uni(t, "usinginto", 0, 5)]
+			} else {
+				o.Using = uni(t, "using", 0, 5)
+			}
+			o.UsingMode = weighted(t, "usingmode", []wt{{"", 86}, {"none", 7}, {"two", 7}})
+		}
+		return o
+	}
+
+	var pending []opT
+	for step := 0; len(c.Ops) < nops || (len(pending) > 0 && len(c.Ops) < nops+6); step++ {
+		if len(pending) > 0 {
+			o := pending[0]
+			pending = pending[1:]
+			if o.K == "dml" && o.What == "" {
+				o = genDML(step)
+			}
+			apply(o)
+			c.Ops = append(c.Ops, o)
+			continue
+		}
 		name := "c1"
 		if chance(t, "second", 18) {
 			name = "c2"
@@ -223,41 +364,73 @@ func genCase(t *rapid.T) histCase {
 		var kind string
 		switch {
 		case !g.declared:
-			kind = weighted(t, "k_undeclared", []wt{{"declare", 72}, {"open", 5}, {"fetch", 5}, {"close", 3}, {"dispose", 3}, {"status", 6}, {"while", 3}, {"dml", 3}})
+			kind = weighted(t, "k_undeclared", []wt{{"declare", 72}, {"open", 5}, {"fetch", 5}, {"close", 3}, {"dispose", 3}, {"status", 6}, {"while", 3}, {"dml", 2}, {"loopfetch", 1}})
 		case !g.open:
-			kind = weighted(t, "k_closed", []wt{{"open", 58}, {"fetch", 6}, {"status", 9}, {"while", 3}, {"dispose", 4}, {"close", 3}, {"declare", 2}, {"dml", 9}, {"setvar", 4}, {"commit", 1}, {"rollback", 1}})
+			kind = weighted(t, "k_closed", []wt{{"open", 55}, {"fetch", 6}, {"status", 9}, {"while", 3}, {"dispose", 4}, {"close", 3}, {"declare", 2}, {"dml", 7}, {"setvar", 4}, {"commit", 1}, {"rollback", 1}, {"alter", 2}, {"mku", 1}, {"rmu", 1}, {"loopfetch", 1}})
 		default:
-			kind = weighted(t, "k_open", []wt{{"fetch", 45}, {"dml", 19}, {"status", 10}, {"while", 7}, {"close", 5}, {"open", 3}, {"commit", 3}, {"rollback", 3}, {"dispose", 2}, {"declare", 1}, {"setvar", 2}})
+			kind = weighted(t, "k_open", []wt{{"fetch", 40}, {"dml", 15}, {"status", 9}, {"while", 6}, {"close", 5}, {"open", 3}, {"commit", 2}, {"rollback", 3}, {"dispose", 2}, {"declare", 1}, {"setvar", 2}, {"alloc", 6}, {"loopfetch", 4}, {"alter", 1}, {"mku", 1}})
 		}
 		var o opT
 		switch kind {
 		case "declare":
 			o = opT{K: "declare", Cur: name}
-			if chance(t, "prep", 20) {
+			if chance(t, "prep", 22) {
 				o.Prep = true
-				o.Q = uni(t, "pq", 0, len(prepared)-1)
+				o.Q, _ = strconv.Atoi(weighted(t, "pq", []wt{{"0", 32}, {"1", 23}, {"2", 45}}))
 			} else {
-				o.Q = uni(t, "q", 0, len(queries)-1)
-			}
-			if !g.declared {
-				g.declared, g.open, g.prep, g.q = true, false, o.Prep, o.Q
+				ws := make([]wt, len(queries))
+				for i := range ws {
+					ws[i] = wt{strconv.Itoa(i), 8}
+				}
+				o.Q, _ = strconv.Atoi(weighted(t, "q", ws))
 			}
 		case "open":
-			o = opT{K: "open", Cur: name, RefAfter: chance(t, "refafter", 50)}
-			if g.prep {
-				o.Using = uni(t, "using", 0, 5)
-			}
-			if g.declared && !g.open {
-				g.open, g.ln, g.ptr = true, len(live), -1
+			wasClosed := g.declared && !g.open
+			o = genOpen(name, g)
+			if wasClosed {
+				pct := 8
+				if g.risky() || o.UsingMode != "" || altered {
+					pct = 70
+				}
+				if chance(t, "burst", pct) {
+					// an OPEN that may fail is followed by probes of the cursor state, possibly a repair of
+					// whatever made the query fail, and another OPEN
+					pending = append(pending, opT{K: "status", Cur: name, What: "open", Print: chance(t, "bprint", 30)})
+					switch weighted(t, "probe", []wt{{"fetch", 35}, {"count", 25}, {"range", 20}, {"while", 20}}) {
+					case "fetch":
+						pending = append(pending, opT{K: "fetch", Cur: name, Pos: "NEXT", NVars: 2})
+					case "count":
+						pending = append(pending, opT{K: "status", Cur: name, What: "count"})
+					case "range":
+						pending = append(pending, opT{K: "status", Cur: name, What: "range"})
+					default:
+						pending = append(pending, opT{K: "while", Cur: name})
+					}
+					if chance(t, "repair", 65) {
+						switch {
+						case altered:
+							pending = append(pending, []opT{{K: "alter", What: "add"}, {K: "alter", What: "renback"}, {K: "rollback"}}[uni(t, "fixcol", 0, 2)])
+						case !g.prep && g.q == qTableU:
+							pending = append(pending, opT{K: "mku", What: []string{"file", "temp"}[uni(t, "ukind", 0, 1)]})
+						case !g.prep && g.q >= qDivSelect && g.q <= qSubquery:
+							pending = append(pending, opT{K: "setvar", N: []int{0, 6, 7}[uni(t, "fixlim", 0, 2)]})
+						default:
+							pending = append(pending, opT{K: "dml"}) // drawn when it is its turn
+						}
+					}
+					again := genOpen(name, g)
+					again.UsingMode = ""
+					pending = append(pending, again)
+				}
 			}
 		case "fetch":
 			o = genFetch(t, name, g)
+		case "loopfetch":
+			o = genLoopFetch(t, name, g)
 		case "close":
 			o = opT{K: "close", Cur: name}
-			g.open = false
 		case "dispose":
 			o = opT{K: "dispose", Cur: name}
-			*g = gcur{}
 		case "status":
 			switch {
 			case !g.declared:
@@ -269,40 +442,22 @@ func genCase(t *rapid.T) histCase {
 			}
 		case "while":
 			o = genWhile(t, name)
-			if g.open {
-				g.ptr = g.ln
-				if o.Break > 0 {
-					g.ptr = min(g.ptr+o.Break, g.ln)
-				}
-			}
 		case "dml":
-			o = opT{K: "dml", Tag: step}
-			o.What = weighted(t, "dml", []wt{{"insert", 25}, {"update", 25}, {"updall", 12}, {"updid", 10}, {"delete", 22}, {"delall", 6}})
-			switch o.What {
-			case "insert":
-				o.ID = nextID
-				live = append(live, nextID)
-				nextID++
-			case "update", "updid", "delete":
-				if len(live) > 0 && chance(t, "hit", 90) {
-					i := uni(t, "which", 0, len(live)-1)
-					o.ID = live[i]
-					if o.What == "delete" {
-						live = append(live[:i:i], live[i+1:]...)
-					} else if o.What == "updid" {
-						live[i] += 100
-					}
-				} else {
-					o.ID = uni(t, "anyid", 1, 9)
-				}
-			case "delall":
-				live = nil
-			}
+			o = genDML(step)
+		case "alter":
+			o = opT{K: "alter", What: weighted(t, "alter", []wt{{"drop", 30}, {"ren", 30}, {"add", 20}, {"renback", 20}})}
+		case "mku":
+			o = opT{K: "mku", What: []string{"file", "temp"}[uni(t, "ukind", 0, 1)]}
+		case "rmu":
+			o = opT{K: "rmu"}
+		case "alloc":
+			o = opT{K: "alloc", What: weighted(t, "alloc", []wt{{"inc", 40}, {"mix", 30}, {"sel", 30}})}
 		case "commit", "rollback":
 			o = opT{K: kind}
 		case "setvar":
-			o = opT{K: "setvar", N: uni(t, "limv", 0, 4)}
+			o = opT{K: "setvar", N: uni(t, "limv", 0, 6)}
 		}
+		apply(o)
 		c.Ops = append(c.Ops, o)
 	}
 	return c
@@ -326,13 +481,14 @@ const (
 )
 
 type curM struct {
-	declared bool
-	open     bool
-	decl     opT
-	snap     [][]val.Val
-	ptrs     []int // admissible pointer positions (normally one)
-	fetched  int
-	dml      int // data changes on t since OPEN
+	declared    bool
+	open        bool
+	decl        opT
+	snap        [][]val.Val
+	ptrs        []int // admissible pointer positions (normally one)
+	fetched     int
+	dml         int // data changes on t since OPEN
+	failedOpens int // OPENs that failed with their query since the last successful one
 }
 
 func (m *curM) ln() int { return len(m.snap) }
@@ -487,15 +643,38 @@ func parsePrinted(out string) ([][]val.Val, error) {
 			case len(l) >= 2 && l[0] == '\'' && l[len(l)-1] == '\'':
 				rw = append(rw, val.Str(l[1:len(l)-1]))
 			default:
-				if _, err := strconv.ParseInt(l, 10, 64); err != nil {
+				if _, err := strconv.ParseFloat(l, 64); err != nil {
 					return nil, fmt.Errorf("unexpected printed line %q", l)
 				}
-				rw = append(rw, val.Val{K: "I", S: l})
+				rw = append(rw, val.Val{K: "#", S: l}) // a bare number: an integer, or a float (1.0 prints as 1)
 			}
 		}
 		rows = append(rows, rw)
 	}
 	return rows, nil
+}
+
+// printedEq compares a snapshot row with a printed one (kind "#": integer or float of that text).
+func printedEq(want, got []val.Val) bool {
+	if len(want) != len(got) {
+		return false
+	}
+	for i := range want {
+		w, g := want[i], got[i]
+		switch {
+		case g.K == "#" && w.K == "I":
+			if w.S != g.S {
+				return false
+			}
+		case g.K == "#" && w.K == "F":
+			if strconv.FormatFloat(w.AsFloat(), 'f', -1, 64) != g.S {
+				return false
+			}
+		case w != g:
+			return false
+		}
+	}
+	return true
 }
 
 func dmlSQL(o opT) string {
@@ -514,12 +693,16 @@ func dmlSQL(o opT) string {
 	return "DELETE FROM t;"
 }
 
-func fetchSQL(o opT) string {
+// fetchSQL renders a FETCH; operand is the text of the ABSOLUTE/RELATIVE offset ("" = the literal N).
+func fetchSQL(o opT, operand string) string {
 	vars := []string{"@a", "@b", "@n"}[:o.NVars]
 	pos := o.Pos
 	switch o.Pos {
 	case "ABSOLUTE", "RELATIVE":
-		pos = fmt.Sprintf("%s %d", o.Pos, o.N)
+		if operand == "" {
+			operand = strconv.Itoa(o.N)
+		}
+		pos = o.Pos + " " + operand
 	}
 	if pos != "" {
 		pos += " "
@@ -529,7 +712,7 @@ func fetchSQL(o opT) string {
 
 func posName(p string) string {
 	if p == "" {
-		return "IMPLICIT"
+		return "NEXT"
 	}
 	return p
 }
@@ -569,13 +752,13 @@ func checkHist(c histCase) (fw.Outcome, *fw.Violation) {
 		}
 		setup = append(setup, "COMMIT;")
 	}
-	setup = append(setup, fmt.Sprintf("VAR @a, @b, @n, @lim := %d;", c.Lim))
+	setup = append(setup, fmt.Sprintf("VAR @a, @b, @n, @k := 0, @o, @p, @q, @lim := %d;", c.Lim))
 	for i, p := range prepared {
 		setup = append(setup, fmt.Sprintf("PREPARE s%d FROM %s;", i, val.QuoteSQL(p)))
 	}
 	for _, st := range setup {
 		if r := e.exec(st); r.Err != nil {
-			return o, fw.V("harness_setup", "set-up statement failed: %s: %v", st, r.Err)
+			return o, fw.Harness("set-up statement failed: %s: %v", st, r.Err)
 		}
 	}
 
@@ -613,32 +796,102 @@ func checkHist(c histCase) (fw.Outcome, *fw.Violation) {
 	noData := func(stmt, sig string) *fw.Violation {
 		obs, err := e.readVars()
 		if err != nil {
-			return fw.V("harness_readvars", "%v%s", err, e.tail())
+			return fw.Harness("%v%s", err, e.tail())
 		}
 		if !isMarker(obs) {
 			return fw.V(sig+"_delivered_data", "%s put %s into the variables%s", stmt, rowStr(obs), e.tail())
 		}
 		return nil
 	}
-	refQuery := func(m *curM, op opT) string {
-		if m.decl.Prep {
-			return strings.Replace(prepared[m.decl.Q], "?", strconv.Itoa(op.Using), 1) + ";"
+	// openTexts: the OPEN statement, the reference statement (the cursor's own query as a plain statement:
+	// the query text, or EXECUTE of the prepared statement with the same replace values) and, for the
+	// SELECT ... INTO statement (which returns no result when executed), the query that lists its rows.
+	openTexts := func(m *curM, op opT) (stmt, ref, rows, kind string) {
+		if !m.decl.Prep {
+			kind = map[int]string{qDivSelect: "division", qDivWhere: "division", qSubquery: "subquery", qTableU: "table"}[m.decl.Q]
+			if kind == "" {
+				kind = "column"
+			}
+			return fmt.Sprintf("OPEN %s;", op.Cur), queries[m.decl.Q] + ";", "", kind
 		}
-		return queries[m.decl.Q] + ";"
+		using := fmt.Sprintf(" USING %d", op.Using)
+		kind = "column"
+		switch op.UsingMode {
+		case "none":
+			using, kind = "", "using"
+		case "two":
+			using, kind = fmt.Sprintf(" USING %d, %d", op.Using, op.Using+1), "using"
+		}
+		if m.decl.Q == pInto {
+			rows = strings.Replace(intoRows, "?", strconv.Itoa(op.Using), 1) + ";"
+			if kind != "using" {
+				kind = "into"
+			}
+		}
+		return fmt.Sprintf("OPEN %s%s;", op.Cur, using), fmt.Sprintf("EXECUTE s%d%s;", m.decl.Q, using), rows, kind
+	}
+	setSentinel := func() *fw.Violation {
+		if r := e.exec(fmt.Sprintf("@a := '%s'; @b := '%s';", sentinel, sentinel)); r.Err != nil {
+			return fw.Harness("%v%s", r.Err, e.tail())
+		}
+		return nil
+	}
+	// resolveOffset prepares the operand of FETCH ABSOLUTE/RELATIVE. For a variable or expression the value
+	// is read from the session first: "ok" (an integer, n), "bad" (not a number: the FETCH must fail) or
+	// "skip" (a float: the conversion is not documented, the operation is left out).
+	resolveOffset := func(op opT) (operand string, n int, kind string, v *fw.Violation) {
+		if (op.Pos != "ABSOLUTE" && op.Pos != "RELATIVE") || op.Off == "" {
+			return "", op.N, "ok", nil
+		}
+		switch op.Off {
+		case "a", "b":
+			// @o shares the value object with @a/@b (which a FETCH may have bound to a cell of a snapshot)
+			if r := e.exec("@o := @" + op.Off + ";"); r.Err != nil {
+				return "", 0, "", fw.Harness("%v%s", r.Err, e.tail())
+			}
+			operand = "@o"
+		case "k":
+			operand = "@k"
+		case "kexpr":
+			operand = "(@k - 1)"
+		default:
+			operand = fmt.Sprintf("(%d + 0)", op.N)
+		}
+		r := e.exec("SELECT " + operand + ";")
+		if r.Err != nil || len(r.Views) != 1 || len(r.Views[0].Rows) != 1 {
+			return "", 0, "", fw.Harness("offset operand %s: %v%s", operand, r.Err, e.tail())
+		}
+		x := r.Views[0].Rows[0][0]
+		switch x.K {
+		case "I":
+			return operand, int(x.AsInt()), "ok", nil
+		case "S":
+			t := strings.TrimSpace(x.S)
+			if i, err := strconv.ParseInt(t, 10, 32); err == nil {
+				return operand, int(i), "ok", nil
+			}
+			if _, err := strconv.ParseFloat(t, 64); err == nil {
+				return operand, 0, "skip", nil
+			}
+			return operand, 0, "bad", nil
+		case "N":
+			return operand, 0, "bad", nil
+		}
+		return operand, 0, "skip", nil
 	}
 	// fetchChecked runs a two-variable FETCH on an open cursor and narrows the pointer set.
-	fetchChecked := func(m *curM, op opT) (bool, *fw.Violation) {
-		if r := e.exec(fmt.Sprintf("@a := '%s'; @b := '%s';", sentinel, sentinel)); r.Err != nil {
-			return false, fw.V("harness_sentinel", "%v%s", r.Err, e.tail())
+	fetchChecked := func(m *curM, op opT, operand string) (bool, *fw.Violation) {
+		if v := setSentinel(); v != nil {
+			return false, v
 		}
-		stmt := fetchSQL(op)
+		stmt := fetchSQL(op, operand)
 		r := e.exec(stmt)
 		if r.Err != nil {
 			return false, fw.V("fetch_open_cursor_error", "%s on an open cursor failed: %s %v%s", stmt, run.ErrClass(r.Err), r.Err, e.tail())
 		}
 		obs, err := e.readVars()
 		if err != nil {
-			return false, fw.V("harness_readvars", "%v%s", err, e.tail())
+			return false, fw.Harness("%v%s", err, e.tail())
 		}
 		var cands, keep []int
 		for _, p := range m.ptrs {
@@ -707,16 +960,20 @@ func checkHist(c histCase) (fw.Outcome, *fw.Violation) {
 			}
 			*m = curM{declared: true, decl: op}
 			if op.Prep {
-				class("declare:prepared")
+				class(fmt.Sprintf("declare:prepared%d", op.Q))
 			} else {
-				class(fmt.Sprintf("declare:q%d", op.Q))
+				if op.Q < qDivSelect {
+					class("declare:q0-7")
+				} else {
+					class(fmt.Sprintf("declare:q%d", op.Q))
+				}
 			}
 			tok("D")
 
 		case "open":
-			stmt := fmt.Sprintf("OPEN %s;", op.Cur)
-			if m.declared && m.decl.Prep {
-				stmt = fmt.Sprintf("OPEN %s USING %d;", op.Cur, op.Using)
+			stmt, ref, rowsStmt, failKind := fmt.Sprintf("OPEN %s;", op.Cur), "", "", ""
+			if m.declared {
+				stmt, ref, rowsStmt, failKind = openTexts(m, op)
 			}
 			switch {
 			case !m.declared:
@@ -732,19 +989,47 @@ func checkHist(c histCase) (fw.Outcome, *fw.Violation) {
 				class("err:open_of_open")
 				tok("O!")
 			default:
-				ref := refQuery(m, op)
 				var rr run.Res
+				runRef := func() {
+					rr = e.exec(ref)
+					if rr.Err == nil && rowsStmt != "" {
+						rr = e.exec(rowsStmt)
+					}
+				}
 				if !op.RefAfter {
-					rr = e.exec(ref)
+					runRef()
 				}
-				if r := e.exec(stmt); r.Err != nil {
-					return o, fw.V("open_error", "%s of a declared, closed cursor failed: %s %v%s", stmt, run.ErrClass(r.Err), r.Err, e.tail())
-				}
+				r := e.exec(stmt)
 				if op.RefAfter {
-					rr = e.exec(ref)
+					runRef()
 				}
-				if rr.Err != nil || len(rr.Views) != 1 {
-					return outOfDomain("reference_select_failed")
+				switch {
+				case r.Err != nil && rr.Err == nil:
+					return o, fw.V("open_error", "%s of a declared, closed cursor failed (%s %v) although its query evaluates%s", stmt, run.ErrClass(r.Err), r.Err, e.tail())
+				case r.Err == nil && rr.Err != nil:
+					return o, fw.V("open_succeeded_query_fails", "%s succeeded although the cursor's query fails (%s: %v)%s", stmt, ref, rr.Err, e.tail())
+				}
+				if r.Err != nil {
+					// the OPEN failed with its query: the cursor is still closed (the following operations go on
+					// probing that: FETCH/COUNT/IS IN RANGE must raise "closed", a later OPEN must work)
+					pr := e.exec("SELECT CURSOR " + op.Cur + " IS OPEN;")
+					if pr.Err != nil || len(pr.Views) != 1 || len(pr.Views[0].Rows) != 1 {
+						return o, fw.V("status_open_error", "IS OPEN after a failed OPEN: %v%s", pr.Err, e.tail())
+					}
+					if g := pr.Views[0].Rows[0][0].S; g != "FALSE" {
+						return o, fw.V("failed_open_leaves_cursor_open", "%s failed (%v) and CURSOR %s IS OPEN is %s afterwards%s", stmt, r.Err, op.Cur, g, e.tail())
+					}
+					m.failedOpens++
+					class("open:failed:" + failKind)
+					tok("Of")
+					continue
+				}
+				if len(rr.Views) != 1 {
+					return outOfDomain("reference_select_shape")
+				}
+				if m.failedOpens > 0 {
+					class("open:after_failed_open")
+					m.failedOpens = 0
 				}
 				m.open = true
 				m.snap = rr.Views[0].Rows
@@ -756,19 +1041,54 @@ func checkHist(c histCase) (fw.Outcome, *fw.Violation) {
 						return outOfDomain("reference_row_shape")
 					}
 				}
-				class("open:len" + []string{"0", "1", "2-6", "2-6", "2-6", "2-6", "2-6"}[min(m.ln(), 6)])
+				class("open:len" + []string{"0", "1-6", "1-6", "1-6", "1-6", "1-6", "1-6"}[min(m.ln(), 6)])
 				tok("O")
 			}
 
 		case "fetch":
-			stmt := fetchSQL(op)
+			operand, n, offKind, v := resolveOffset(op)
+			if v != nil {
+				return o, v
+			}
+			if offKind == "skip" {
+				class("fetch:float_offset_left_out")
+				continue
+			}
+			op.N = n
+			stmt := fetchSQL(op, operand)
+			if op.Off != "" {
+				class("fetch:offset_" + map[string]string{"a": "fetched_variable", "b": "fetched_variable", "k": "variable", "kexpr": "expression", "litexpr": "expression"}[op.Off])
+			}
+			if offKind == "bad" {
+				// the offset is not a number (a string fetched earlier, NULL, the sentinel): documented as an
+				// integer, so the FETCH must fail, whatever the state of the cursor, and deliver nothing
+				if v := setSentinel(); v != nil {
+					return o, v
+				}
+				r := e.exec(stmt)
+				switch {
+				case r.Err == nil && m.declared && m.open:
+					return outOfDomain("non_numeric_fetch_offset_accepted")
+				case r.Err == nil:
+					return o, fw.V("fetch_not_open_no_error", "%s succeeded on a cursor that is not open%s", stmt, e.tail())
+				}
+				if en := errNum(r.Err); en != errFetchPos && !(en == errUndeclared && !m.declared) && !(en == errClosed && m.declared && !m.open) {
+					return o, fw.V("fetch_bad_offset_error_class", "%s: %s %v%s", stmt, run.ErrClass(r.Err), r.Err, e.tail())
+				}
+				if v := noData(stmt, "fetch_bad_offset"); v != nil {
+					return o, v
+				}
+				class("fetch:bad_offset")
+				tok("F~")
+				continue
+			}
 			if !m.declared || !m.open {
 				want, sig, cl := errUndeclared, "fetch_undeclared", "err:undeclared:fetch"
 				if m.declared {
 					want, sig, cl = errClosed, "fetch_closed", "err:closed:fetch"
 				}
-				if r := e.exec(fmt.Sprintf("@a := '%s'; @b := '%s';", sentinel, sentinel)); r.Err != nil {
-					return o, fw.V("harness_sentinel", "%v%s", r.Err, e.tail())
+				if v := setSentinel(); v != nil {
+					return o, v
 				}
 				if v := expectErr(e.exec(stmt), stmt, want, sig); v != nil {
 					return o, v
@@ -783,8 +1103,8 @@ func checkHist(c histCase) (fw.Outcome, *fw.Violation) {
 			if op.NVars != 2 {
 				// wrong number of variables: documented as an error when a record is addressed; whether the
 				// pointer has moved by then is not documented, both are admitted.
-				if r := e.exec(fmt.Sprintf("@a := '%s'; @b := '%s';", sentinel, sentinel)); r.Err != nil {
-					return o, fw.V("harness_sentinel", "%v%s", r.Err, e.tail())
+				if v := setSentinel(); v != nil {
+					return o, v
 				}
 				r := e.exec(stmt)
 				var cands []int
@@ -820,7 +1140,7 @@ func checkHist(c histCase) (fw.Outcome, *fw.Violation) {
 					wasOut = false
 				}
 			}
-			in, v := fetchChecked(m, op)
+			in, v := fetchChecked(m, op, operand)
 			if v != nil {
 				return o, v
 			}
@@ -835,10 +1155,87 @@ func checkHist(c histCase) (fw.Outcome, *fw.Violation) {
 			rel := op.Pos == "" || op.Pos == "NEXT" || op.Pos == "PRIOR" || op.Pos == "RELATIVE"
 			if wasOut && rel {
 				nontrivExc = true
-				class("nontrivial:excursion_then_relative:" + res)
+				class("nontrivial:excursion_then_relative")
 			}
-			class("fetch:" + posName(op.Pos) + ":" + res)
+			class("fetch:" + posName(op.Pos))
+			class("fetch:" + res)
 			tok("F" + posName(op.Pos)[:1] + res[:1])
+
+		case "loopfetch":
+			// the same FETCH statement text executed Reps times by a WHILE loop, integer arithmetic in between
+			if v := setSentinel(); v != nil {
+				return o, v
+			}
+			if r := e.exec("@n := 0;"); r.Err != nil {
+				return o, fw.Harness("%v%s", r.Err, e.tail())
+			}
+			stmt := fmt.Sprintf("WHILE @n < %d DO %s PRINT @a; PRINT @b; @n := @n + 1; @k := (@k + 7) %% 5; END WHILE;",
+				op.Reps, fetchSQL(opT{Cur: op.Cur, Pos: op.Pos, N: op.N, NVars: 2}, ""))
+			e.s.Out.Reset()
+			r := e.exec(stmt)
+			got, perr := parsePrinted(e.s.Out.String())
+			e.trace[len(e.trace)-1] += fmt.Sprintf("   printed %q", e.s.Out.String())
+			if perr != nil {
+				return o, fw.Harness("%v%s", perr, e.tail())
+			}
+			if !m.declared || !m.open {
+				want, sig, cl := errUndeclared, "loop_fetch_undeclared", "err:undeclared:fetch"
+				if m.declared {
+					want, sig, cl = errClosed, "loop_fetch_closed", "err:closed:fetch"
+				}
+				if v := expectErr(r, stmt, want, sig); v != nil {
+					return o, v
+				}
+				if len(got) > 0 {
+					return o, fw.V(sig+"_delivered_data", "%s went on after the failing FETCH%s", stmt, e.tail())
+				}
+				class(cl)
+				tok("L?")
+				continue
+			}
+			if r.Err != nil {
+				return o, fw.V("loop_fetch_error", "%s on an open cursor failed: %s %v%s", stmt, run.ErrClass(r.Err), r.Err, e.tail())
+			}
+			if len(got) != op.Reps {
+				return o, fw.V("loop_fetch_rows", "%s printed %d rows, expected %d%s", stmt, len(got), op.Reps, e.tail())
+			}
+			{
+				var keep []int
+				anyIn := false
+				for _, p0 := range m.ptrs {
+					p, ok := p0, true
+					prev := []val.Val{val.Str(sentinel), val.Str(sentinel)}
+					for i := 0; ok && i < op.Reps; i++ {
+						p = move(p, op.Pos, op.N, m.ln())
+						if m.inRange(p) {
+							ok = printedEq(m.snap[p], got[i])
+						} else {
+							// nothing is delivered: the variables keep what they had, or become NULL
+							ok = rowEq(prev, got[i]) || (got[i][0].IsNull() && got[i][1].IsNull())
+						}
+						prev = got[i]
+					}
+					if ok {
+						keep = append(keep, p)
+						anyIn = anyIn || m.inRange(p)
+					}
+				}
+				if len(keep) == 0 {
+					var gs []string
+					for _, g := range got {
+						gs = append(gs, rowStr(g))
+					}
+					return o, fw.V("loop_fetch_rows", "%s with pointer in %v over a snapshot of %d rows delivered [%s]: not the rows at the positions addressed by the same FETCH executed %d times%s",
+						stmt, m.ptrs, m.ln(), strings.Join(gs, " "), op.Reps, e.tail())
+				}
+				m.ptrs = uniq(keep)
+				m.fetched = fYes
+				if anyIn && m.dml > 0 {
+					nontrivDML = true
+				}
+			}
+			class("loopfetch:" + op.Pos)
+			tok("L")
 
 		case "close":
 			stmt := fmt.Sprintf("CLOSE %s;", op.Cur)
@@ -848,7 +1245,7 @@ func checkHist(c histCase) (fw.Outcome, *fw.Violation) {
 				if v := expectErr(r, stmt, errUndeclared, "close_undeclared"); v != nil {
 					return o, v
 				}
-				class("err:undeclared:close")
+				class("err:undeclared:close_dispose")
 				tok("C?")
 			case m.open:
 				if r.Err != nil {
@@ -871,7 +1268,7 @@ func checkHist(c histCase) (fw.Outcome, *fw.Violation) {
 				if v := expectErr(r, stmt, errUndeclared, "dispose_undeclared"); v != nil {
 					return o, v
 				}
-				class("err:undeclared:dispose")
+				class("err:undeclared:close_dispose")
 				tok("X?")
 			case r.Err != nil:
 				if !m.open {
@@ -880,11 +1277,7 @@ func checkHist(c histCase) (fw.Outcome, *fw.Violation) {
 				// refusing to dispose an open cursor would be admissible: nothing changes
 				class("dispose:open_refused")
 			default:
-				if m.open {
-					class("dispose:open")
-				} else {
-					class("dispose:closed")
-				}
+				class("dispose")
 				*m = curM{}
 				tok("X")
 			}
@@ -911,14 +1304,14 @@ func checkHist(c histCase) (fw.Outcome, *fw.Violation) {
 			// (results of a SELECT inside a loop are not stored by child processors: the loop prints)
 			stmt := fmt.Sprintf("WHILE %s%s, %s IN %s DO PRINT %s; PRINT %s;%s%s END WHILE;", decl, va, vb, op.Cur, va, vb, body, brk)
 			if r := e.exec("@n := 0;"); r.Err != nil {
-				return o, fw.V("harness_sentinel", "%v%s", r.Err, e.tail())
+				return o, fw.Harness("%v%s", r.Err, e.tail())
 			}
 			e.s.Out.Reset()
 			r := e.exec(stmt)
 			got, perr := parsePrinted(e.s.Out.String())
 			e.trace[len(e.trace)-1] += fmt.Sprintf("   printed %q", e.s.Out.String())
 			if perr != nil {
-				return o, fw.V("harness_while_shape", "%v%s", perr, e.tail())
+				return o, fw.Harness("%v%s", perr, e.tail())
 			}
 			if !m.declared {
 				if v := expectErr(r, stmt, errUndeclared, "while_undeclared"); v != nil {
@@ -942,10 +1335,12 @@ func checkHist(c histCase) (fw.Outcome, *fw.Violation) {
 				tok("W?")
 				continue
 			}
+			bodyFailed := false
 			if r.Err != nil && op.Body != "" && errNum(r.Err)/1000 != 11 {
-				return outOfDomain("while_body_dml_error")
-			}
-			if r.Err != nil {
+				// the DML in the body failed (e.g. its column was dropped): the loop stopped inside an iteration
+				bodyFailed = true
+				class("while:body_dml_failed")
+			} else if r.Err != nil {
 				return o, fw.V("while_error", "%s on an open cursor failed: %s %v%s", stmt, run.ErrClass(r.Err), r.Err, e.tail())
 			}
 			var keepEnds []int
@@ -958,7 +1353,13 @@ func checkHist(c histCase) (fw.Outcome, *fw.Violation) {
 				}
 				want := remaining
 				var ends []int
-				if op.Break > 0 && len(remaining) >= op.Break {
+				if bodyFailed {
+					if len(got) == 0 || len(got) > len(remaining) {
+						continue
+					}
+					want = remaining[:len(got)]
+					ends = []int{p + len(got)}
+				} else if op.Break > 0 && len(remaining) >= op.Break {
 					want = remaining[:op.Break]
 					ends = []int{p + op.Break}
 				} else {
@@ -972,7 +1373,7 @@ func checkHist(c histCase) (fw.Outcome, *fw.Violation) {
 				}
 				ok := len(want) == len(got)
 				for i := 0; ok && i < len(want); i++ {
-					ok = rowEq(want[i], got[i])
+					ok = printedEq(want[i], got[i])
 				}
 				if ok {
 					matched = true
@@ -1025,7 +1426,7 @@ func checkHist(c histCase) (fw.Outcome, *fw.Violation) {
 				tok("W")
 			}
 			if op.Body != "" {
-				class("while:body_" + op.Body)
+				class("while:body_dml")
 			}
 
 		case "status":
@@ -1074,7 +1475,7 @@ func checkHist(c histCase) (fw.Outcome, *fw.Violation) {
 				if v := expectErr(run.Res{Err: firstErr}, stmt, wantErr, "status_"+op.What+map[int]string{errUndeclared: "_undeclared", errClosed: "_closed"}[wantErr]); v != nil {
 					return o, v
 				}
-				class(map[int]string{errUndeclared: "err:undeclared:", errClosed: "err:closed:"}[wantErr] + "status_" + op.What)
+				class(map[int]string{errUndeclared: "err:undeclared:", errClosed: "err:closed:"}[wantErr] + "status")
 				tok("S?")
 				continue
 			}
@@ -1082,7 +1483,7 @@ func checkHist(c histCase) (fw.Outcome, *fw.Violation) {
 				return o, fw.V("status_"+op.What+"_error", "%s failed: %s %v%s", stmt, run.ErrClass(firstErr), firstErr, e.tail())
 			}
 			if len(got) != len(exprs) {
-				return o, fw.V("harness_status_shape", "%s: unexpected result %v%s", stmt, got, e.tail())
+				return o, fw.Harness("%s: unexpected result %v%s", stmt, got, e.tail())
 			}
 			not := map[string]string{"TRUE": "FALSE", "FALSE": "TRUE", "UNKNOWN": "UNKNOWN"}
 			switch op.What {
@@ -1094,7 +1495,7 @@ func checkHist(c histCase) (fw.Outcome, *fw.Violation) {
 				if got[0] != want || got[1] != not[want] {
 					return o, fw.V("status_is_open", "%s gave %v; the cursor is open=%v%s", stmt, got, m.open, e.tail())
 				}
-				class("status:open:" + want)
+				class("status:open")
 			case "count":
 				if got[0] != strconv.Itoa(m.ln()) {
 					return o, fw.V("status_count", "%s gave %s; the view retrieved at OPEN has %d rows (%d data changes since)%s", stmt, got[0], m.ln(), m.dml, e.tail())
@@ -1142,7 +1543,10 @@ func checkHist(c histCase) (fw.Outcome, *fw.Violation) {
 		case "dml":
 			r := e.exec(dmlSQL(op))
 			if r.Err != nil {
-				return outOfDomain("dml_error")
+				// e.g. after a column was dropped: not this property's business, nothing changed
+				class("dml:error")
+				tok("m")
+				continue
 			}
 			if r.Affected > 0 {
 				dirty = true
@@ -1154,15 +1558,50 @@ func checkHist(c histCase) (fw.Outcome, *fw.Violation) {
 				tok("m")
 			}
 
+		case "alter":
+			sql := map[string]string{"drop": "ALTER TABLE t DROP v;", "add": "ALTER TABLE t ADD v DEFAULT 'z';", "ren": "ALTER TABLE t RENAME v TO w;", "renback": "ALTER TABLE t RENAME w TO v;"}[op.What]
+			if r := e.exec(sql); r.Err != nil {
+				class("alter:error")
+			} else {
+				dirty = true
+				dataChanged()
+				class("alter:ok")
+				tok("A")
+			}
+
+		case "mku":
+			first := "CREATE TABLE `u.csv` (id, v);"
+			if op.What == "temp" {
+				first = "DECLARE u VIEW (id, v);"
+			}
+			if r := e.exec(first); r.Err != nil {
+				class("table_u:error")
+			} else {
+				e.exec("INSERT INTO u VALUES (1, 'u1'), (2, 'u2');")
+				class("table_u:created")
+				tok("U")
+			}
+
+		case "rmu":
+			if r := e.exec("DISPOSE VIEW u;"); r.Err == nil {
+				class("table_u:disposed")
+				tok("u")
+			}
+
+		case "alloc":
+			// statements that allocate integer values between the fetches
+			sql := map[string]string{"inc": "@k := @k + 1;", "mix": "@k := (@k * 3 + 1) % 7;", "sel": "SELECT 7 + 8, 9 * 2, 0 - 3, @k + 100;"}[op.What]
+			if r := e.exec(sql); r.Err != nil {
+				return o, fw.Harness("%v%s", r.Err, e.tail())
+			}
+			class("alloc")
+			tok("I")
+
 		case "commit":
 			if r := e.exec("COMMIT;"); r.Err != nil {
 				return outOfDomain("commit_error")
 			}
-			if dirty {
-				class("commit:dirty")
-			} else {
-				class("commit:clean")
-			}
+			class("commit")
 			dirty = false
 			tok("T")
 
@@ -1172,16 +1611,14 @@ func checkHist(c histCase) (fw.Outcome, *fw.Violation) {
 			}
 			if dirty {
 				dataChanged()
-				class("rollback:dirty")
-			} else {
-				class("rollback:clean")
 			}
+			class("rollback")
 			dirty = false
 			tok("R")
 
 		case "setvar":
 			if r := e.exec(fmt.Sprintf("@lim := %d;", op.N)); r.Err != nil {
-				return o, fw.V("harness_setvar", "%v%s", r.Err, e.tail())
+				return o, fw.Harness("%v%s", r.Err, e.tail())
 			}
 			tok("V")
 		}
@@ -1201,7 +1638,7 @@ func checkHist(c histCase) (fw.Outcome, *fw.Violation) {
 			return o, fw.V("status_count", "final COUNT of %s gave %s; the view retrieved at OPEN has %d rows (%d data changes since)%s", name, g, m.ln(), m.dml, e.tail())
 		}
 		for i := 0; i <= m.ln(); i++ {
-			in, v := fetchChecked(m, opT{K: "fetch", Cur: name, Pos: "ABSOLUTE", N: i, NVars: 2})
+			in, v := fetchChecked(m, opT{K: "fetch", Cur: name, Pos: "ABSOLUTE", N: i, NVars: 2}, "")
 			if v != nil {
 				v.Sig = "sweep_" + v.Sig
 				return o, v
@@ -1210,7 +1647,6 @@ func checkHist(c histCase) (fw.Outcome, *fw.Violation) {
 				nontrivDML = true
 			}
 		}
-		class("final_sweep")
 	}
 
 	if nontrivDML || nontrivExc {
@@ -1223,13 +1659,15 @@ func TestC16CursorHistory(t *testing.T) {
 	fw.Run(t, fw.Spec[histCase]{
 		ID: "C16", Name: "cursor_history", Quick: 30000, Thorough: 600000,
 		Gen: genCase, Check: checkHist,
-		Rule: "a table t (CSV file or temporary table, 0-6 rows) and a history of 4-25 operations on two cursors generated up front: DECLARE (8 queries incl. ORDER BY, LIMIT, variable, self-join, common table expression; 2 prepared statements), OPEN [USING], FETCH in all six positions with offsets -9..9, CLOSE, DISPOSE, WHILE IN (VAR, BREAK, DML in the body), IS [NOT] OPEN / IS [NOT] IN RANGE / COUNT via SELECT or PRINT, INSERT/UPDATE/DELETE/COMMIT/ROLLBACK on t; executed statement by statement on one session next to a model {declared, open, snapshot, pointer set, fetched}; the snapshot is the result of the cursor's own query run as a SELECT immediately before or after OPEN; every cursor still open at the end is swept by FETCH ABSOLUTE 0..len. Non-trivial = a data change between OPEN and a later in-range fetch, or a relative fetch after the pointer left the view; distinct by the compressed operation/outcome sequence",
+		Rule: "a table t (CSV file with text cells or temporary table with integer ids, 0-6 rows) and a history of 4-31 operations on two cursors generated up front: DECLARE (14 queries incl. ORDER BY, LIMIT, variable, self-join, FROM-subquery, computed integer/float columns, and four that fail for some table states: division by zero in the select list / in WHERE, scalar subquery with too many records, a table u that may not exist; 3 prepared statements incl. SELECT ... INTO), OPEN [USING none/one/two values], FETCH in all six positions with offsets -9..9 given as literal, variable (also one filled by an earlier FETCH) or expression, the same FETCH statement repeated inside a WHILE loop with integer arithmetic in between, CLOSE, DISPOSE, WHILE IN (VAR, BREAK, DML in the body), IS [NOT] OPEN / IS [NOT] IN RANGE / COUNT via SELECT or PRINT, INSERT/UPDATE/DELETE/COMMIT/ROLLBACK and ALTER TABLE DROP/ADD/RENAME on t, creation/disposal of u, integer-allocating statements; executed statement by statement on one session next to a model {declared, open, snapshot, pointer set, fetched}. OPEN must fail exactly when the cursor's own query (run as a statement, resp. EXECUTE of the prepared statement with the same values, immediately before or after) fails; after a failed OPEN the cursor is closed (IS OPEN FALSE, then whatever the history does next: FETCH/COUNT/IS IN RANGE raise 11003, a later OPEN snapshots the current table); after a successful one the snapshot is that reference result with value types; every cursor still open at the end is re-listed by FETCH ABSOLUTE 0..len and compared with it. Non-trivial = a data change between OPEN and a later in-range fetch, or a relative fetch after the pointer left the view; distinct by the compressed operation/outcome sequence",
 		Assumptions: []string{
 			"variables after an out-of-range fetch: NULL (manual) and unchanged (implementation) are both admitted, record data is not",
 			"after a WHILE IN that ran to the end the pointer may be on the last record (literal reading of control-flow.md) or past it (FETCH NEXT semantics); the model keeps both until an observation decides",
 			"a FETCH with the wrong number of variables must fail when it addresses a record; whether the pointer moved is left open",
 			"CLOSE of a closed cursor, DISPOSE of an open cursor and redeclaration are not constrained by the property (redeclaration without the error 11001 discards the case)",
-			"FROM-subqueries over t are replaced by a common table expression (avoidFromSubqueryPoisonsFileInfo): after a FROM-subquery over a file every later INSERT/UPDATE/DELETE on that file fails, a defect outside this property; DML that fails for a non-cursor reason discards the case (measured as out_of_domain:*)",
+			"a FETCH offset that is not a number (NULL, non-numeric text) must raise an error (11008, or the undeclared/closed error) and deliver nothing; accepted silently on an open cursor it discards the case; float-valued offsets are left out (conversion not documented)",
+			"statements on t or u that fail for a reason outside the property (DML after a column was dropped, CREATE of an existing file) are no-ops of the history; a DML failing inside a WHILE IN body ends the loop inside that iteration with the pointer on the record just visited",
+			"an OPEN and the plain execution of the cursor's query right before/after it succeed or fail together; the error class of a failed OPEN is not constrained",
 			"the row order of an unordered SELECT over one small table at CPU 1 is the same in two consecutive evaluations",
 		},
 	})
